@@ -268,7 +268,7 @@ def pred_site(f, il):
     parts = v.split(" & ")[0].split()
     kv = _kv(v.split(" & ")[0])
     if mode == "foreign":
-        return (T + "cached_token_still_checked_sites", "an error", "a foreign cache entry ended up in a signature that verifies")
+        return (T + "cached_token_still_checked_sites", "err selfcheck", "a foreign cache entry ended up in a signature that verifies")
     if parts[0] != "url1" or kv.get("same") != "1":
         return (thm, "url1 same=1", "the countersignature reported by the verifier is not the token the client returned: " + v)
     want_oid = {"pe-coff": "spc", "msi": "spc", "cab": "spc", "ps": "spc", "xap": "spc", "appx": "spc", "cat": "spc",
@@ -363,12 +363,8 @@ def branch(op, mres, tag):
 
 
 def matches_known(k, op, il, mres, tag):
-    ident = (k.get("identity") or {}).get("tsx")
-    f = op.split()
-    if ident == "vsix-unchecked-token":
-        # exactly: the VSIX signer, a foreign entry in the cache, a package signed with the foreign token, refused by relic's verifier
-        return (f[1] == "site" and f[2] == "vsix" and f[6] == "foreign" and il.startswith("ok signed ") and "given=other" in il
-                and "verify[err imprint]" in il and il == mres)
+    """no TSX result is a listed finding (F52-vsix-unchecked-token is fixed: a163120; its op is a regression op in
+    corpus/C10/vsix-unchecked-token.ops whose expected result is the refusal at signing time)"""
     return False
 
 
@@ -431,8 +427,7 @@ def run(ctx, prop):
             if nontrivial(op, mres, tag):
                 nontriv += 1
         bad = predicate(prop, op, il, times, mres, tag)
-        # the model's main line is the unchanged tree; `alt` is what a tree with a repaired known finding does
-        same = il == mres or (tag.startswith("alt ") and il == canon_model(op, tag[4:]))
+        same = il == mres
         kn = None
         if bad or not same:
             kn = next((k for k in known if matches_known(k, op, il, mres, tag)), None)
@@ -440,7 +435,11 @@ def run(ctx, prop):
             known_hits.append((kn, op))
             continue
         if bad:
-            findings.append(runner.Finding("counterexample", TIE, bad[0], op, bad[1], il0, bad[2]))
+            note = bad[2]
+            if tag.startswith("orig ") and il == canon_model(op, tag[5:]):
+                note += (" [model: exactly the behaviour of the signer before fix a163120 (F52: token embedded unchecked); "
+                         "proved witness: attach_site_vsix_unchecked_orig / vsix_unchecked_through_cache_orig]")
+            findings.append(runner.Finding("counterexample", TIE, bad[0], op, mres if tag.startswith("orig ") else bad[1], il0, note))
         elif not same:
             findings.append(runner.Finding("broken-tie", TIE, TIE_THEOREM, op, mres, il0,
                                            "model and implementation disagree; property predicate not falsified on this op"))
